@@ -28,7 +28,7 @@ def run(ctx):
         js.append(Job("hist_all_" + name, HIST, flags, [], all_args, timeout=1500, runner=runner, distinct=(name == "O0_assert_san"), key_prefix="hist_all_" + name))
     # (2) lookups over the stack grammar: the pairwise adjacency cover (every layer present), all alphabet coordinates of each stack's domain
     stacks, seen = [], set()
-    nms = [(1, 1), (1, 3), (2, 2), (3, 1), (3, 3), (2, 4), (4, 2), (4, 4)] if thorough else [(2, 3), (3, 2)]
+    nms = [(1, 1), (1, 3), (2, 2), (3, 1), (3, 3), (2, 4), (4, 2), (4, 4)] if thorough else [(1, 1), (2, 3), (3, 2)]
     for i, (n, m) in enumerate(nms):
         it, rt, st = ("std::size_t", "float", "float") if i % 2 == 0 else ("int", "double", "double")
         for s in g.adjacency_cover(g.enumerate_stacks(n, m, 5, itype=it, rtype=rt, stype=st, variant=i)):
